@@ -241,7 +241,8 @@ def check(ctx):
                                         "waiting and run the wrapped function a second time", by=(f"entry = {CE}.get({KEY})",))
         if ENT:
             # the placeholder test looks at the re-read entry
-            tests = [n for n in own_walk(lockw) if isinstance(n, ast.NamedExpr) and n.target.id == CV]
+            tests = [n for n in own_walk(lockw) if (isinstance(n, ast.NamedExpr) and n.target.id == CV)
+                     or (isinstance(n, ast.Assign) and len(n.targets) == 1 and isinstance(n.targets[0], ast.Name) and n.targets[0].id == CV)]      # walrus or plain re-read
             okt = len(tests) == 1 and ast.unparse(tests[0].value) == f"{ENT}[0]"
             ctx.ob("R20-c", call, "the placeholder test is made on the re-read entry", okt, node=stmt_of(tests[0]) if tests else lockw,
                    detail="" if okt else f"`{CV}` is not taken from `{ENT}[0]` under the lock", by=(f"{CV} := {ENT}[0]",))
@@ -544,13 +545,13 @@ def check(ctx):
     # the method wrapper forwards to the same cache
     mw = ctx.fn("_LRUMethodWrapper.__call__", FN)
     s1 = find_all("return await $W($*A)", mw.node)
-    ok = len(s1) == 2
-    ctx.ob("R20-f", mw, "bound-method calls go through the shared wrapper (instance is part of the key)", ok,
-           detail="" if ok else "_LRUMethodWrapper.__call__ no longer forwards to the wrapper", by=("self.__wrapper(self.__instance, *args, **kwargs)",))
     # ... with the instance as first argument exactly when there is one (`is None`, not falsiness: an empty container-like instance is an
-    # instance), and with all of the caller's arguments
-    inst_attr = [n_.attr for n_ in ast.walk(ctx.fn("_LRUMethodWrapper.__init__", FN).node) if isinstance(n_, ast.Attribute) and isinstance(n_.ctx, ast.Store)
-                 and isinstance(getattr(n_, "_parent", None), ast.Assign) and norm(n_._parent.value) == ctx.fn("_LRUMethodWrapper.__init__", FN).node.args.args[2].arg]
+    # instance), and with all of the caller's arguments.  The argument list is either written at the call or built first
+    # (`call_args = args if inst is None else (inst, *args)`): every way of building it is a variant judged where it is built.
+    init_mw = ctx.fn("_LRUMethodWrapper.__init__", FN)
+    inst_attr = [n_.attr for n_ in ast.walk(init_mw.node) if isinstance(n_, ast.Attribute) and isinstance(n_.ctx, ast.Store)
+                 and isinstance(getattr(n_, "_parent", None), ast.Assign) and norm(n_._parent.value) == init_mw.node.args.args[2].arg]
+    variants = []
     if ctx.need("R20-f", mw, "the field of _LRUMethodWrapper that stores the bound instance", len(inst_attr), 1):
         inst = f"self.{inst_attr[0]}"
         va, kw_ = mw.node.args.vararg, mw.node.args.kwarg
@@ -558,17 +559,33 @@ def check(ctx):
             c_ = m_.value.value if isinstance(m_, ast.Return) else None
             if not isinstance(c_, ast.Call):
                 continue
-            a_ = [norm(x) for x in c_.args]
-            tail_ok = bool(va and kw_) and a_[-1:] == [f"*{va.arg}"] and [norm(k.value) for k in c_.keywords if k.arg is None] == [kw_.arg]
-            ctx.ob("R20-f", mw, "the caller's positional and keyword arguments are forwarded unchanged", tail_ok, node=m_, by=("*args, **kwargs",),
-                   detail="" if tail_ok else f"`{norm(m_)}` does not forward *args/**kwargs")
-            if a_[:1] == [inst]:
-                ctx.require_at("R20-f", mw, m_, [[f"{inst} is not None"]], instance="the instance is passed (and becomes part of the key) whenever there is one", what="bound call")
+            kw_ok = bool(kw_) and [norm(k.value) for k in c_.keywords if k.arg is None] == [kw_.arg] and not [k for k in c_.keywords if k.arg is not None]
+            ctx.ob("R20-f", mw, "the caller's keyword arguments are forwarded unchanged", kw_ok, node=m_, by=("**kwargs",),
+                   detail="" if kw_ok else f"`{norm(m_)}` does not forward **kwargs")
+            if len(c_.args) == 1 and isinstance(c_.args[0], ast.Starred) and isinstance(c_.args[0].value, ast.Name) and (not va or c_.args[0].value.id != va.arg):
+                tn = c_.args[0].value.id
+                for d_ in [x for x in own_walk(mw.node) if isinstance(x, ast.Assign) and len(x.targets) == 1 and isinstance(x.targets[0], ast.Name) and x.targets[0].id == tn]:
+                    v_ = d_.value
+                    if isinstance(v_, ast.Tuple):
+                        variants.append((d_, [norm(x) for x in v_.elts]))
+                    else:
+                        variants.append((d_, [f"*{norm(v_)}"]))
             else:
-                ctx.require_at("R20-f", mw, m_, [[f"{inst} is None"]], instance="the call omits the instance only when there is none (access through the class)",
+                variants.append((m_, [norm(x) for x in c_.args]))
+        for site_, a_ in variants:
+            tail_ok = bool(va) and a_[-1:] == [f"*{va.arg}"] and len(a_) <= 2
+            ctx.ob("R20-f", mw, "the caller's positional arguments are forwarded unchanged", tail_ok, node=site_, by=("*args",),
+                   detail="" if tail_ok else f"`{norm(site_)}` does not forward *args (after at most the instance)")
+            if a_[:1] == [inst]:
+                ctx.require_at("R20-f", mw, site_, [[f"{inst} is not None"]], instance="the instance is passed (and becomes part of the key) whenever there is one", what="bound call")
+            else:
+                ctx.require_at("R20-f", mw, site_, [[f"{inst} is None"]], instance="the call omits the instance only when there is none (access through the class)",
                                what="unbound call")
+        ok = any(a_[:1] == [inst] for _, a_ in variants) and any(a_[:1] != [inst] for _, a_ in variants)
+        ctx.ob("R20-f", mw, "bound-method calls go through the shared wrapper (instance is part of the key)", ok,
+               detail="" if ok else "_LRUMethodWrapper.__call__ no longer forwards to the wrapper both with and without the instance", by=("self.__wrapper(self.__instance, *args, **kwargs)",))
     cc = ctx.fn("AsyncLRUCacheWrapper.cache_clear", FN)
     s2 = ctx.sites(cc, "$C.pop(self, None)")
-    z = ctx.sites(cc, "self._hits = self._misses = self._currsize = 0")
+    z = ctx.sites(cc, "self._currsize = 0")          # (the chained `self._hits = self._misses = self._currsize = 0` is split into three stores)
     ctx.ob("R20-d", cc, "cache_clear drops the whole mapping and zeroes the counter together", len(s2) == 1 and len(z) == 1,
            detail="" if s2 and z else "cache_clear no longer pops the wrapper's mapping and resets _currsize in one step", by=("cache.pop(self) + _currsize = 0",))
